@@ -11,13 +11,20 @@ def Owned (s : State) (v : Nat) : Prop := ∃ r R fid t, s.reps r = some R ∧ R
 /-- some live `sref` functor copy refers to `v` -/
 def Pinned (s : State) (v : Nat) : Prop := ∃ r R fid, s.reps r = some R ∧ R.fn = some (.sref fid v)
 
+/-- no slot variable stores representation `r` (a freshly made one, one that was moved out of its variable, or the
+    old one of an assignment while it is being deleted) -/
+def Orphan (s : State) (r : Nat) : Prop := ∀ w, repOf s w ≠ some r
+
 /-- the invariant that holds at every point of every cascade (trackables may be clearing, a freshly made
     representation may not yet be stored in its variable — `parentOk` speaks about stored representations) -/
 structure Inv (s : State) : Prop where
   repAlive : ∀ v r, repOf s v = some r → ∃ R, s.reps r = some R
   repUniq : ∀ v1 v2 r, repOf s v1 = some r → repOf s v2 = some r → v1 = v2
-  connReg : ∀ c v, s.conns c = some (some v) → ∃ r R, repOf s v = some r ∧ s.reps r = some R ∧ c ∈ R.cbs
-  cbsConn : ∀ r R c, s.reps r = some R → c ∈ R.cbs → ∃ v, s.conns c = some (some v) ∧ repOf s v = some r
+  connReg : ∀ c v, s.conns c = some (some v) →
+    ∃ r R, s.reps r = some R ∧ c ∈ R.cbs ∧ (repOf s v = some r ∨ Orphan s r)
+  cbsConn : ∀ r R c, s.reps r = some R → c ∈ R.cbs →
+    ∃ v, s.conns c = some (some v) ∧ (repOf s v = some r ∨ Orphan s r)
+  regUniq : ∀ r1 R1 r2 R2 c, s.reps r1 = some R1 → s.reps r2 = some R2 → c ∈ R1.cbs → c ∈ R2.cbs → r1 = r2
   cbsNodup : ∀ r R, s.reps r = some R → R.cbs.Nodup
   parentOk : ∀ r R p v, s.reps r = some R → R.parent = some p → repOf s v = some r →
     ∃ P fid, s.reps p = some P ∧ P.fn = some (.sref fid v)
@@ -113,7 +120,7 @@ theorem repOf_eq {s : State} {v r : Nat} : repOf s v = some r ↔ ∃ V, s.slots
 
 /-- rewrite field projections of updated states -/
 macro "st_simp" : tactic =>
-  `(tactic| simp only [slotg_simp, Owned, Option.map_eq_some_iff, Option.map_eq_none_iff, Option.bind_eq_some_iff] at *)
+  `(tactic| simp only [slotg_simp, Owned, Orphan, Option.map_eq_some_iff, Option.map_eq_none_iff, Option.bind_eq_some_iff] at *)
 
 /-- one clause of `Inv _`: all clauses of `Inv s` as hypotheses, field rewriting, then `grind` -/
 syntax "inv_clause " ident (" with" " [" Lean.Parser.Tactic.grindParam,* "]")? : tactic
@@ -130,6 +137,7 @@ macro_rules
          have hA4 := ($h).cbsConn; have hA5 := ($h).cbsNodup; have hA6 := ($h).parentOk
          have hA7 := ($h).trkReg; have hA8 := ($h).trkEnt; have hA9 := ($h).trkNodup
          have hA10 := ($h).refOk; have hA11 := ($h).ownOk; have hA12 := ($h).repBound
+         have hA13 := ($h).regUniq
          try st_simp
          first | done | grind [$ps,*]))
 
@@ -139,6 +147,71 @@ macro_rules
   | `(tactic| inv_auto $h:ident $[with [$ps,*]]?) => do
     let ps : Array (Lean.TSyntax `Lean.Parser.Tactic.grindParam) := (ps.getD ⟨#[]⟩).getElems
     `(tactic| (constructor <;> inv_clause $h with [$ps,*]))
+
+/-- `Inv` with the connection clauses at full strength (no registration on an unstored representation): what
+    holds at operation boundaries; used for the operations that involve no cascade -/
+structure InvS (s : State) : Prop where
+  repAlive : ∀ v r, repOf s v = some r → ∃ R, s.reps r = some R
+  repUniq : ∀ v1 v2 r, repOf s v1 = some r → repOf s v2 = some r → v1 = v2
+  connReg : ∀ c v, s.conns c = some (some v) → ∃ r R, repOf s v = some r ∧ s.reps r = some R ∧ c ∈ R.cbs
+  cbsConn : ∀ r R c, s.reps r = some R → c ∈ R.cbs → ∃ v, s.conns c = some (some v) ∧ repOf s v = some r
+  cbsNodup : ∀ r R, s.reps r = some R → R.cbs.Nodup
+  parentOk : ∀ r R p v, s.reps r = some R → R.parent = some p → repOf s v = some r →
+    ∃ P fid, s.reps p = some P ∧ P.fn = some (.sref fid v)
+  trkReg : ∀ r R f t, s.reps r = some R → R.fn = some f → f.trk = some t →
+    ∃ T, s.trks t = some T ∧ (r, true) ∈ T.entries
+  trkEnt : ∀ t T r, s.trks t = some T → (r, true) ∈ T.entries →
+    ∃ R f, s.reps r = some R ∧ R.fn = some f ∧ f.trk = some t
+  trkNodup : ∀ t T, s.trks t = some T → (T.entries.map Prod.fst).Nodup
+  refOk : ∀ r R fid v, s.reps r = some R → R.fn = some (.sref fid v) →
+    (∃ V, s.slots v = some V) ∧ ¬ Owned s v
+  ownOk : ∀ r R fid v t, s.reps r = some R → R.fn = some (.own fid v t) → ∃ V, s.slots v = some V
+  repBound : ∀ r R, s.reps r = some R → r < s.nextRep
+
+theorem InvS.inv {s : State} (h : InvS s) : Inv s where
+  repAlive := h.repAlive
+  repUniq := h.repUniq
+  connReg := fun c v hc => by
+    obtain ⟨r, R, hr, hR, hm⟩ := h.connReg c v hc; exact ⟨r, R, hR, hm, .inl hr⟩
+  cbsConn := fun r R c hR hm => by
+    obtain ⟨v, hv, hr⟩ := h.cbsConn r R c hR hm; exact ⟨v, hv, .inl hr⟩
+  regUniq := fun r1 R1 r2 R2 c h1 h2 m1 m2 => by
+    obtain ⟨v1, hv1, hr1⟩ := h.cbsConn r1 R1 c h1 m1
+    obtain ⟨v2, hv2, hr2⟩ := h.cbsConn r2 R2 c h2 m2
+    rw [hv1] at hv2; cases hv2; rw [hr1] at hr2; cases hr2; rfl
+  cbsNodup := h.cbsNodup
+  parentOk := h.parentOk
+  trkReg := h.trkReg
+  trkEnt := h.trkEnt
+  trkNodup := h.trkNodup
+  refOk := h.refOk
+  ownOk := h.ownOk
+  repBound := h.repBound
+
+/-- one clause of `InvS _` from `h : InvS s` -/
+syntax "invs_clause " ident (" with" " [" Lean.Parser.Tactic.grindParam,* "]")? : tactic
+macro_rules
+  | `(tactic| invs_clause $h:ident $[with [$ps,*]]?) => do
+    let ps : Array (Lean.TSyntax `Lean.Parser.Tactic.grindParam) := (ps.getD ⟨#[]⟩).getElems
+    let ps := ps.push (← `(Lean.Parser.Tactic.grindParam| Fun.trk))
+    let ps := ps.push (← `(Lean.Parser.Tactic.grindParam| Fun.ref))
+    let ps := ps.push (← `(Lean.Parser.Tactic.grindParam| Fun.owns))
+    let ps := ps.push (← `(Lean.Parser.Tactic.grindParam| Option.map_eq_some_iff))
+    `(tactic|
+        (intros
+         have hA1 := ($h).repAlive; have hA2 := ($h).repUniq; have hA3 := ($h).connReg
+         have hA4 := ($h).cbsConn; have hA5 := ($h).cbsNodup; have hA6 := ($h).parentOk
+         have hA7 := ($h).trkReg; have hA8 := ($h).trkEnt; have hA9 := ($h).trkNodup
+         have hA10 := ($h).refOk; have hA11 := ($h).ownOk; have hA12 := ($h).repBound
+         try st_simp
+         first | done | grind [$ps,*]))
+
+/-- all clauses of `InvS _` by `invs_clause` -/
+syntax "invs_auto " ident (" with" " [" Lean.Parser.Tactic.grindParam,* "]")? : tactic
+macro_rules
+  | `(tactic| invs_auto $h:ident $[with [$ps,*]]?) => do
+    let ps : Array (Lean.TSyntax `Lean.Parser.Tactic.grindParam) := (ps.getD ⟨#[]⟩).getElems
+    `(tactic| (constructor <;> invs_clause $h with [$ps,*]))
 
 /-- replacing a live representation by one with the same `parent`, `fn`, `cbs` -/
 theorem inv_setRep_same {s : State} (h : Inv s) {r : Nat} {R R' : Rep} (hr : s.reps r = some R)
